@@ -1,2 +1,161 @@
--- stub: driver for C04 not written yet
-def main : IO Unit := pure ()
+import CMacVerif.Model.HydroSweeps
+import CMacVerif.Model.HydroUpdate
+import CMacVerif.Model.HLLC
+import CMacVerif.Inst.Float
+import CMacVerif.Util.Bits
+/-!
+Line-protocol driver for C04 / C10.
+
+Integer ops (the sweeps of `Model/HydroSweeps.lean`):
+* `sub nx ny nz px py pz cx cy cz a b c`
+    → every call the tasks of subgrid `(a, b, c)` make, at the index level of the code:
+      `I<ax>:<il>:<ir>` (internal sweep), `O<ax>:<ngb>:<il>:<ir>` (pair sweep with subgrid `ngb`),
+      `B<ax>:<+|->:<il>` (boundary sweep), after `<subgrid index>`
+* `cells nx ny nz px py pz cx cy cz a b c` → global cell index of every cell index of the subgrid
+* `grid nx ny nz px py pz cx cy cz` → the faces of the undivided global grid (`gridFaces`,
+      `gridGhosts`) as `<ax>:<gl>:<gr>` / `<ax>:<+|->:<gl>` with global cell indices
+* `all nx ny nz px py pz cx cy cz` → the same from `allFaces` / `allGhosts` (all subgrids)
+
+Numeric ops (`Model/HydroUpdate.lean` at `Float` with C05's HLLC model as flux function), see
+harness/c04.cpp for the formats.
+-/
+open CMacVerif CMacVerif.Util CMacVerif.RiemannVacuum CMacVerif.HydroGraph CMacVerif.HydroSweeps
+  CMacVerif.HydroUpdate
+
+def dblMin : Float := Float.ofBits 0x0010000000000000
+def dblMax : Float := Float.ofBits 0x7FEFFFFFFFFFFFFF
+def ovfThr : Float := Float.ofBits 0x0004000000000000
+
+def fl (s : String) : Float := fOfBits (nat! s)
+
+def axes : List Axis := [.x, .y, .z]
+def axNum : Axis → Nat | .x => 0 | .y => 1 | .z => 2
+def axOf (s : String) : Axis := if s == "0" then .x else if s == "1" then .y else .z
+
+def layoutOf (w : Array String) (k : Nat) : Layout × Cells :=
+  (⟨nat! w[k]!, nat! w[k+1]!, nat! w[k+2]!, w[k+3]! == "1", w[k+4]! == "1", w[k+5]! == "1"⟩,
+   ⟨nat! w[k+6]!, nat! w[k+7]!, nat! w[k+8]!⟩)
+
+def join (l : List String) : String := " ".intercalate l
+
+def subLine (L : Layout) (c : Cells) (g : Sub) : String :=
+  let parts := axes.flatMap fun ax =>
+    let a := axNum ax
+    (innerIdx c ax).map (fun p => s!"I{a}:{p.1}:{p.2}") ++
+    (match ngbUp L ax g with
+      | some n => (outerIdx c ax).map (fun p => s!"O{a}:{subIndex L n}:{p.1}:{p.2}")
+      | none => (ghostIdx c ax true).map (fun i => s!"B{a}:+:{i}")) ++
+    (match ngbDown L ax g with
+      | some _ => []
+      | none => (ghostIdx c ax false).map (fun i => s!"B{a}:-:{i}"))
+  s!"{subIndex L g} " ++ join parts
+
+def faceLine (L : Layout) (c : Cells) (faces : Axis → List Face) (ghosts : Axis → Bool → List Loc) :
+    String :=
+  join (axes.flatMap fun ax =>
+    let a := axNum ax
+    (faces ax).map (fun f => s!"{a}:{gidx L c f.1}:{gidx L c f.2}") ++
+    (ghosts ax true).map (fun x => s!"{a}:+:{gidx L c x}") ++
+    (ghosts ax false).map (fun x => s!"{a}:-:{gidx L c x}"))
+
+def readQ (w : Array String) (k : Nat) : Q Float :=
+  ⟨fl w[k]!, ⟨fl w[k+1]!, fl w[k+2]!, fl w[k+3]!⟩, fl w[k+4]!⟩
+
+def readV3 (w : Array String) (k : Nat) : V3 Float := ⟨fl w[k]!, fl w[k+1]!, fl w[k+2]!⟩
+
+/-- limiters as the code stores them: `lim[2j]` minimum, `lim[2j+1]` maximum -/
+def readLim (w : Array String) (k : Nat) : Q Float × Q Float :=
+  (⟨fl w[k]!, ⟨fl w[k+2]!, fl w[k+4]!, fl w[k+6]!⟩, fl w[k+8]!⟩,
+   ⟨fl w[k+1]!, ⟨fl w[k+3]!, fl w[k+5]!, fl w[k+7]!⟩, fl w[k+9]!⟩)
+
+def zeroQ : Q Float := ⟨0.0, ⟨0.0, 0.0, 0.0⟩, 0.0⟩
+
+/-- prim(5) grad(15) cons(5) dcons(5) -/
+def readCell (w : Array String) (k : Nat) : HV Float :=
+  { prim := readQ w k
+    grad := ⟨readV3 w (k+5), readV3 w (k+8), readV3 w (k+11), readV3 w (k+14), readV3 w (k+17)⟩
+    lo := zeroQ, hi := zeroQ
+    cons := readQ w (k+20)
+    dcons := readQ w (k+25)
+    acc := ⟨0.0, 0.0, 0.0⟩, eterm := 0.0 }
+
+def showQ (q : Q Float) : String :=
+  s!"{showF q.d} {showF q.v.x} {showF q.v.y} {showF q.v.z} {showF q.e}"
+
+def showLim (lo hi : Q Float) : String :=
+  s!"{showF lo.d} {showF hi.d} {showF lo.v.x} {showF hi.v.x} {showF lo.v.y} {showF hi.v.y} {showF lo.v.z} {showF hi.v.z} {showF lo.e} {showF hi.e}"
+
+def hllcFlux (g : Float) : FluxFn Float := fun rhoL uL pL rhoR uR pR n =>
+  HLLC.solveForFlux dblMin ovfThr g rhoL uL pL rhoR uR pR n ⟨0.0, 0.0, 0.0⟩
+
+def step (_ : Unit) (ws : List String) : Unit × String :=
+  let w := ws.toArray
+  let n := w.size
+  let op := w[0]!
+  if op == "sub" && n == 13 then
+    let (L, c) := layoutOf w 1
+    ((), subLine L c (nat! w[10]!, nat! w[11]!, nat! w[12]!))
+  else if op == "cells" && n == 13 then
+    let (L, c) := layoutOf w 1
+    let g : Sub := (nat! w[10]!, nat! w[11]!, nat! w[12]!)
+    ((), join ((List.range (c.cx * c.cy * c.cz)).map fun i =>
+      toString (gidx L c (gcell c g (threeIndex c i)))))
+  else if op == "grid" && n == 10 then
+    let (L, c) := layoutOf w 1
+    ((), faceLine L c (gridFaces (cellGrid L c)) (gridGhosts (cellGrid L c)))
+  else if op == "all" && n == 10 then
+    let (L, c) := layoutOf w 1
+    ((), faceLine L c (allFaces L c) (allGhosts L c))
+  else if op == "lim" && n == 4 then
+    let pL := fl w[2]!
+    let pR := fl w[3]!
+    let d1 := 0.5 * Float.abs (pL - pR)
+    let mx := amax pL pR
+    let mn := amin pL pR
+    let tag := (if feq pL pR then 0 else if pL < pR then 1 else 2)
+      + (if 0.0 < (mx + d1) * mx then 4 else 0) + (if 0.0 < (mn - d1) * mn then 8 else 0)
+    ((), s!"L {showF (limit dblMin (fl w[1]!) pL pR 0.5)} #lim{tag}")
+  else if op == "flux" && n == 66 then
+    let g := fl w[1]!
+    let i := axOf w[2]!
+    let L := readCell w 6
+    let R := readCell w 36
+    let ft := faceFluxTag (hllcFlux g) dblMin g i L R (fl w[3]!) (fl w[4]!) (fl w[5]!)
+    let r := doFluxCalculation (hllcFlux g) dblMin g i L R (fl w[3]!) (fl w[4]!) (fl w[5]!)
+    ((), s!"F {showQ r.1.dcons} {showQ r.2.dcons} #fl{ft.2}")
+  else if op == "gflux" && n == 36 then
+    let g := fl w[1]!
+    let i := axOf w[2]!
+    let L := readCell w 6
+    let ft := ghostFaceFluxTag (hllcFlux g) dblMin g i L (fl w[3]!) (fl w[4]!) (fl w[5]!)
+    let r := doGhostFluxCalculation (hllcFlux g) dblMin g i L (fl w[3]!) (fl w[4]!) (fl w[5]!)
+    ((), s!"G {showQ r.dcons} #gf{ft.2}")
+  else if op == "grad" && n == 83 then
+    let i := axOf w[1]!
+    let limL := readLim w 33
+    let limR := readLim w 73
+    let L := { readCell w 3 with lo := limL.1, hi := limL.2 }
+    let R := { readCell w 43 with lo := limR.1, hi := limR.2 }
+    let r := doGradientCalculation i L R (fl w[2]!)
+    ((), s!"D {showQ (r.1.grad.along i)} {showLim r.1.lo r.1.hi} {showQ (r.2.grad.along i)} {showLim r.2.lo r.2.hi} #grad")
+  else if op == "ggrad" && n == 43 then
+    let i := axOf w[1]!
+    let limL := readLim w 33
+    let L := { readCell w 3 with lo := limL.1, hi := limL.2 }
+    let r := doGhostGradientCalculation i L (fl w[2]!)
+    ((), s!"E {showQ (r.grad.along i)} {showLim r.lo r.hi} #ggrad")
+  else if op == "ucons" && n == 16 then
+    let h : HV Float :=
+      { prim := zeroQ, grad := Grad.zero, lo := zeroQ, hi := zeroQ, cons := readQ w 2,
+        dcons := readQ w 7, acc := readV3 w 12, eterm := fl w[15]! }
+    let r := updateConservedTag dblMax h (fl w[1]!)
+    let u := r.1
+    let reset := u.eterm == 0.0 && u.lo.d == dblMax && u.hi.e == -dblMax && u.dcons.d == 0.0
+      && u.dcons.e == 0.0 && u.grad.d.x == 0.0
+    ((), s!"U {showQ u.cons} reset={if reset then 1 else 0} #uc{r.2}")
+  else if op == "uprim" && n == 9 then
+    let r := setPrimitiveTag (fl w[1]!) (fl w[2]!) ovfThr (fl w[3]!) (readQ w 4)
+    ((), s!"P {showQ r.1} #up{r.2}")
+  else ((), "bad-op")
+
+def main : IO Unit := runDriver step ()
